@@ -202,6 +202,7 @@ STMT_FLAGS = [
     "fn_comp_free",     # comprehension inside a function whose element/condition reads a free name
     "fn_late_local",    # inner function reads an enclosing-function local bound later in the text
     "comp_var_reuse",   # a comprehension variable whose name is also read as a free name elsewhere
+    "keyerror_name",    # the block mentions the builtin KeyError (which mako's strict-undefined lookups also use)
 ]
 ALL_FLAGS = frozenset(EXPR_FLAGS + STMT_FLAGS)
 
@@ -1104,7 +1105,7 @@ IMPORTS = [
     ("import collections.abc", "len(collections.abc.__name__)", "int"),
 ]
 RISKY = ["[1, 2][9]", "1 // 0", "{'a': 1}['zz']", "int('q')", "[1, 2][0]", "4 // 2"]
-CAUGHT = ["IndexError", "KeyError", "ZeroDivisionError", "ValueError", "LookupError", "ArithmeticError", "Exception"]
+CAUGHT = ["KeyError", "IndexError", "ZeroDivisionError", "ValueError", "LookupError", "ArithmeticError", "Exception"]
 
 
 def _assign(name, value):
@@ -1282,11 +1283,13 @@ class BlockGen:
             return [_assign(v, self.e("int", sc)), ast.Delete(targets=[ast.Name(id=v, ctx=ast.Del())])]
         v = self.new()
         if k == 1:
+            val = ast.BinOp(left=ast.List(elts=[_const(1), _const(2)], ctx=ast.Load()), op=ast.Add(), right=self.e("list", sc))
             sc[v] = "list"
-            return [_assign(v, ast.BinOp(left=ast.List(elts=[_const(1), _const(2)], ctx=ast.Load()), op=ast.Add(), right=self.e("list", sc))),
+            return [_assign(v, val),
                     ast.Delete(targets=[ast.Subscript(value=_load(v), slice=_const(x.pick([0, -1])), ctx=ast.Del())])]
+        val = ast.Dict(keys=[_const("a"), _const("k")], values=[self.e("int", sc), _const(2)])
         sc[v] = "dict"
-        return [_assign(v, ast.Dict(keys=[_const("a"), _const("k")], values=[self.e("int", sc), _const(2)])),
+        return [_assign(v, val),
                 ast.Delete(targets=[ast.Subscript(value=_load(v), slice=_const("k"), ctx=ast.Del())])]
 
     def import_(self, sc):
@@ -1348,15 +1351,15 @@ class BlockGen:
             target, it, add = _store(t), _call("range", [_const(x.n(4))]), {t: "int"}
         elif w == 1:
             t = self.new("i")
-            target, it, add = _store(t), self.e("list", sc), {t: "int"}
+            target, it, add = _store(t), _call("list", [self.e("list", sc)]), {t: "int"}
         elif w == 2:
             a, b = self.new("i"), self.new("i")
             target = ast.Tuple(elts=[_store(a), _store(b)], ctx=ast.Store())
-            it, add = _call("enumerate", [self.e("list", sc)]), {a: "int", b: "int"}
+            it, add = _call("enumerate", [_call("list", [self.e("list", sc)])]), {a: "int", b: "int"}
         else:
             a, b = self.new("i"), self.new("i")
             target = ast.Tuple(elts=[_store(a), _store(b)], ctx=ast.Store())
-            it, add = _call(_attr(self.e("dict", sc), "items"), []), {a: "str", b: "int"}
+            it, add = _call("list", [_call(_attr(self.e("dict", sc), "items"), [])]), {a: "str", b: "int"}
         body, inner = self.body(sc, depth, True, fn, add)
         body.append(ast.AugAssign(target=_store(acc), op=ast.Add(), value=self.e("int", inner, 1)))
         orelse = self.body(sc, depth, False, fn)[0] if x.chance(25) else []
@@ -1366,7 +1369,7 @@ class BlockGen:
         x = self.x
         k = self.new("k")
         pre = [_assign(k, _const(1 + x.n(3)))]
-        sc[k] = "int"
+        sc[k] = "counter"  # never an operand or target of generated code: the loop terminates
         body, _ = self.body(sc, depth, True, fn)
         body.insert(0, ast.AugAssign(target=_store(k), op=ast.Sub(), value=_const(1)))
         orelse = self.body(sc, depth, False, fn)[0] if x.chance(25) else []
@@ -1403,7 +1406,7 @@ class BlockGen:
         names = []
         for _ in range(1 + x.n(2)):
             en = self.new("ex") if x.chance(70) else None
-            types_ = [x.pick(CAUGHT) for _ in range(1 + x.n(2))]
+            types_ = [x.pick(CAUGHT if self.on("keyerror_name") else CAUGHT[1:]) for _ in range(1 + x.n(2))]
             ty_node = _load(types_[0]) if len(types_) == 1 else ast.Tuple(elts=[_load(t) for t in types_], ctx=ast.Load())
             hb = [_assign(v, _attr(_call("type", [_load(en)]), "__name__") if en else _const("caught"))]
             if x.chance(40):
@@ -1411,6 +1414,9 @@ class BlockGen:
             handlers.append(ast.ExceptHandler(type=ty_node, name=en, body=hb))
         if x.chance(50):
             handlers.append(ast.ExceptHandler(type=None, name=None, body=[_assign(v, _const("bare"))]))
+            bare = True
+        else:
+            bare = False
         orelse = self.body(sc, depth, loop, fn)[0] if x.chance(25) else []
         final = []
         if x.chance(35):
@@ -1418,6 +1424,8 @@ class BlockGen:
             final = [_assign(f, self.e("int", sc, 1))]
             sc[f] = "int"
         self.feats.add("try")
+        if bare:
+            sc[v] = "any"  # bound on every path
         return [ast.Try(body=b, handlers=handlers, orelse=orelse, finalbody=final)]
 
     def with_(self, sc, depth, loop, fn):
